@@ -376,8 +376,15 @@ func (s *sut) ambientOracle(f []string, _ string, fail func(clause, class, detai
 		fail("ambient-no-dangling-reference", "referenced-policy-not-sent", fmt.Sprintf("keys %s policy %s", strings.Join(r.keys, ","), r.pol))
 		return
 	}
+	if ns == s.root {
+		stat("judged.ambient.root-namespace-workload")
+	}
+	if tiedSelected(s.pas, l) {
+		stat("judged.ambient.tie-decides")
+	}
 	for _, p := range ports {
 		want := effectiveMode(s.pas, s.root, ns, labels, p) == "STRICT"
+		stat("judged.ambient.mode." + effectiveMode(s.pas, s.root, ns, labels, p))
 		got, understood := r.denied(false, p)
 		if !understood {
 			fail("ambient-strict-exact", "policy-shape-not-understood", r.pol)
@@ -467,6 +474,7 @@ func (s *sut) ambientWorkloadOracle(f []string, out string, fail func(clause, cl
 	}
 	for _, p := range queryPort {
 		want := effectiveMode(s.pas, s.root, ns, own, p) == "STRICT"
+		stat("judged.aw." + kind + "." + effectiveMode(s.pas, s.root, ns, own, p))
 		got, understood := r.denied(false, p)
 		if !understood {
 			fail("ambient-workload-policies", kind+":policy-shape-not-understood", r.pol)
